@@ -11,6 +11,8 @@
 (***************************************************************************)
 EXTENDS Naturals, FiniteSets, Sequences
 LOCAL INSTANCE Bitwise          \* a & b, a | b, a ^^ b on assignment indices (Java overrides)
+LOCAL FSE == INSTANCE FiniteSetsExt
+LOCAL INSTANCE TLC
 
 Dom(n) == 0..(2^n - 1)
 IsFn(n, f) == f \subseteq Dom(n)
@@ -24,8 +26,9 @@ ClrBit(m, i) == IF Bit(m, i) THEN m - 2^i ELSE m
 RECURSIVE PopCount(_)
 PopCount(m) == IF m = 0 THEN 0 ELSE (m % 2) + PopCount(m \div 2)
 
-Max(S) == CHOOSE x \in S : \A y \in S : y <= x
-Min(S) == CHOOSE x \in S : \A y \in S : x <= y
+\* (linear folds; the textbook CHOOSE definitions are quadratic in TLC)
+Max(S) == FSE!FoldSet(LAMBDA x, acc : IF x > acc THEN x ELSE acc, CHOOSE x \in S : TRUE, S)
+Min(S) == FSE!FoldSet(LAMBDA x, acc : IF x < acc THEN x ELSE acc, CHOOSE x \in S : TRUE, S)
 
 -----------------------------------------------------------------------------
 (* C01: pointwise logic *)
@@ -119,6 +122,40 @@ CloseUnder(kind, n, todo, seen) ==
        IN CloseUnder(kind, n, new, seen \cup new)
 Orbit(kind, n, f) == CloseUnder(kind, n, {f}, {f})
 OrbitMin(kind, n, f) == MinFn(n, Orbit(kind, n, f))
+
+\* The same orbits by enumeration of the group elements (faster for TLC on larger sizes; the
+\* two definitions are compared by mc/MC_Canon).  `maps` is the set of index maps
+\* [assignment -> assignment] of all input permutations, computed once per size (PermMaps).
+RECURSIVE PermList(_)
+PermList(n) ==      \* all n! permutations (as image sequences over 0..n-1), as a sequence
+  IF n = 0 THEN << <<>> >>
+  ELSE LET prev == PermList(n - 1)
+           Ins(p, j) == [i \in 1..n |-> IF i < j THEN p[i] ELSE IF i = j THEN n - 1 ELSE p[i - 1]]
+       IN [k \in 1..(Len(prev) * n) |-> Ins(prev[((k - 1) \div n) + 1], ((k - 1) % n) + 1)]
+PermMap(n, perm) == [y \in Dom(n) |-> XofR(y, perm, {}, 0)]
+PermMapsSlow(n) == LET pl == PermList(n) IN [k \in 1..Len(pl) |-> PermMap(n, pl[k])]
+\* the same maps built by coset decomposition S_n = U_j S_{n-1} t_j (t_j exchanges x_j and x_{n-1}),
+\* with every intermediate map forced to a concrete function (f @@ <<>>)
+Concrete(f) == f @@ <<>>
+RECURSIVE PermMaps(_)
+PermMaps(n) ==
+  IF n = 0 THEN <<Concrete([y \in {0} |-> 0])>>
+  ELSE LET prev == PermMaps(n - 1)
+           h == 2^(n - 1)
+           ext == Concrete([k \in 1..Len(prev) |->
+                     Concrete([y \in Dom(n) |-> IF y >= h THEN prev[k][y - h] + h ELSE prev[k][y]])])
+           tr == Concrete([j \in 0..(n - 1) |-> Concrete([y \in Dom(n) |-> SwapBits(y, j, n - 1)])])
+       IN Concrete([k \in 1..(Len(prev) * n) |->
+             Concrete([y \in Dom(n) |-> ext[((k - 1) \div n) + 1][tr[(k - 1) % n][y]]])])
+IdMaps(n) == <<[y \in Dom(n) |-> y]>>
+
+\* (flat comprehensions on purpose: TLC's cost of a recursive operator grows with the square of
+\* its depth, so long iterations are written as set constructions or Java-backed folds)
+NOrbitOf(n, g) == LET im == {{x ^^ m : x \in g} : m \in Dom(n)} IN im \cup {Dom(n) \ c : c \in im}
+OrbitMinEnum(kind, n, f, maps) ==
+  CASE kind = "n" -> MinFn(n, NOrbitOf(n, f))
+    [] kind = "p" -> MinFn(n, {{maps[k][x] : x \in f} : k \in 1..Len(maps)})
+    [] OTHER -> MinFn(n, {MinFn(n, NOrbitOf(n, {maps[k][x] : x \in f})) : k \in 1..Len(maps)})
 
 -----------------------------------------------------------------------------
 (* C15: algebraic normal form.  Coefficient of the positive cube S (a set of        *)
